@@ -132,8 +132,8 @@ hasperr:
 		case <-db.closeC:
 			if db.compWriteLocking {
 				// We should release the lock or Close will hang.
-				<-db.writeLockC
 				verifTrace(db.s, "ce:unlock")
+				<-db.writeLockC
 			}
 			return
 		}
